@@ -1,9 +1,7 @@
-import re
 import string
-import functools
 from typing import Union
 
-from flamapy.core.models.ast import ASTOperation
+from flamapy.core.models.ast import ASTOperation, Node
 from flamapy.core.transformations import ModelToText
 from flamapy.metamodels.fm_metamodel.models import (
     Constraint,
@@ -139,18 +137,27 @@ class UVLWriter(ModelToText):
         return result
 
     @staticmethod
-    def _substitute_operator(str_constraint: str,
-                             operator: ASTOperation,
-                             new_operator: str) -> str:
-        return re.sub(rf"\b{operator.value}\b", new_operator, str_constraint)
+    def serialize_constraint(ctc: Constraint) -> str:
+        return UVLWriter._serialize_node(ctc.ast.root)
 
     @staticmethod
-    def serialize_constraint(ctc: Constraint) -> str:
-        str_constraint = ctc.ast.pretty_str()
-        return functools.reduce(lambda acc, op: UVLWriter._substitute_operator(acc,
-                                                                               op,
-                                                                               UVL_OPERATORS[op]),
-                                ASTOperation, str_constraint)
+    def _serialize_node(node: Node) -> str:
+        if node.is_term():
+            return safename(node.data) if isinstance(node.data, str) else str(node.data)
+        operator = UVL_OPERATORS[node.data]
+        operands = [UVLWriter._serialize_operand(operand)
+                    for operand in (node.left, node.right) if operand is not None]
+        if node.is_unary_op():
+            return f"{operator} {operands[0]}"
+        if node.is_aggregate_op():
+            return f"{operator}({', '.join(operands)})"
+        return f"{operands[0]} {operator} {operands[1]}"
+
+    @staticmethod
+    def _serialize_operand(node: Node) -> str:
+        """Binary operations used as operands are parenthesised."""
+        text = UVLWriter._serialize_node(node)
+        return f"({text})" if node.is_op() and node.is_binary_op() else text
 
 
 def safename(name: str) -> str:
